@@ -498,6 +498,14 @@ package lib
 //@   requires rm != nil && rm.RegConfig != nil && rm.Logger != nil && rm.PhantomSelector != nil && rm.registeredDecoys != nil && rm.GeoIP != nil
 //@   requires forall k pb.TransportType :: k in rm.registeredDecoys.transports ==> rm.registeredDecoys.transports[k] != nil
 //@   ensures @C11: result1 == nil ==> (forall i int :: 0 <= i && i < len(result0) ==> result0[i] != nil)
+// C07 "its address family is enabled on the station and consistent with the registrant's address": an IPv4
+// registration is built only if the client asked for IPv4, the station has IPv4 enabled and the registrant's address
+// is IPv4; an IPv6 registration only if the client asked for IPv6 and the station has IPv6 enabled; at most one each.
+//@   atcall NewRegistrationC2SWrapper before: assert @C07: arg1 == parsed && !arg2 ==> rm.EnableIPv4 && isV4(sourceAddr) && parsed.RegistrationPayload != nil && parsed.RegistrationPayload.V4Support != nil && *parsed.RegistrationPayload.V4Support
+//@   atcall NewRegistrationC2SWrapper before: assert @C07: arg1 == parsed && arg2 ==> rm.EnableIPv6 && parsed.RegistrationPayload != nil && parsed.RegistrationPayload.V6Support != nil && *parsed.RegistrationPayload.V6Support
+//@   atcall NewRegistrationC2SWrapper#1 before: assert @C07: !arg2
+//@   atcall NewRegistrationC2SWrapper#2 before: assert @C07: arg2
+//@   ensures @C07: result1 == nil ==> len(result0) <= 2
 //@   checks safety
 
 // C02: what the wrapping transports see (the implementation of transports.RegManager.GetRegistrations): every entry
